@@ -121,7 +121,21 @@ def handleTxbodyWith (c36 : Bool) : Handler := fun inp out => do
   let gCode := optStrField out "errorCode"
   let gPanic ← boolField out "panic"
   let gCalls := (← arrField out "calls").map realCallJson
-  let exact := match body with | some b => fmtExactAll b | none => true
+  -- only numbers decoded into `any` (v2 script variables) go through float formatting
+  let scriptVars (b : JVal) : List JVal :=
+    match b with
+    | .obj kvs => (match getField kvs "script" with
+        | some (.obj sk) => (getField sk "vars").toList
+        | _ => [])
+    | _ => []
+  let floatTrees : List JVal := match kind, body with
+    | "createV2", some b => scriptVars b
+    | "bulk", some (.arr els) => els.flatMap fun el =>
+        (match el with
+         | .obj kvs => (match getField kvs "data" with | some d => scriptVars d | none => [])
+         | _ => [])
+    | _, _ => []
+  let exact := floatTrees.all fmtExactAll
   let callsOk := !exact || (gCalls.length = m.calls.length && (gCalls.zip m.calls).all fun (a, b) => a == b)
   -- v1: a faulting and a rejected variable in the same `vars` object: Go's map order decides
   let mixed : Bool := kind = "createV1" && m.panic &&
